@@ -387,6 +387,8 @@ def _run_write_txn(ctx, b, m, t, abort_at=None, hook=None, final=True, base_exc=
             res.faults.inc("hook_exception_inside_op")
             res.probes.inc("hook_raised_mid_operation")
     tag = f"txn kind={t['kind']} end={t['end']} abort_at={abort_at} hook={hook}"
+    # the client goes on using (mutating) the rdataset/rrset objects it passed in
+    res.faults.inc("client_scribbles_on_passed_in_objects", b.scribble_on_handed_in())
     if not txn._ended:
         raise Violation("C10:not-ended", f"[{b.kind}] transaction not ended after leaving the with block: {tag}")
     if committed:
